@@ -397,6 +397,9 @@ type ClientOpts struct {
 	// PreHeader: response headers a host application's handler or middleware has already set on the
 	// ResponseWriter when the engine gets this client's requests
 	PreHeader http.Header
+	// Chunk > 0: the client's data requests do not declare their length (chunked transfer encoding, as fetch with a
+	// stream body or a proxy that re-frames does); the body arrives in pieces of this many bytes
+	Chunk int
 }
 
 func (o ClientOpts) eio() string {
@@ -613,6 +616,10 @@ func (c *PollClient) StartPostRaw(body []byte, ct string, mod func(*ReqSpec)) *E
 	spec.Body = body
 	spec.HasBody = true
 	spec.PreHeader = c.O.PreHeader
+	if c.O.Chunk > 0 {
+		spec.ContentLength = -1
+		spec.BodyChunk = c.O.Chunk
+	}
 	if mod != nil {
 		mod(&spec)
 	}
@@ -686,6 +693,14 @@ var _ = bytes.Equal
 // a noop, send the upgrade packet. Returns the candidate client (exactly one
 // of the two is non-nil).
 func Upgrade(w *World, pc *PollClient, kind string) (*WSClient, *WTClient, error) {
+	return UpgradeAs(w, pc, kind, 0)
+}
+
+// UpgradeAs: candRev != 0: the websocket candidate's own request announces this revision (EIO parameter) although
+// the session was opened with another one. Nothing in the protocol ties the two together and the server does not
+// compare them: the candidate's packets are then encoded as that revision encodes them, the session's heartbeat
+// mode stays what the handshake made it.
+func UpgradeAs(w *World, pc *PollClient, kind string, candRev int) (*WSClient, *WTClient, error) {
 	sr := w.Get(pc.Sid)
 	if pc.Poll == nil {
 		pc.StartPoll()
@@ -710,6 +725,9 @@ func Upgrade(w *World, pc *PollClient, kind string) (*WSClient, *WTClient, error
 	}
 	if kind == "websocket" {
 		wc = &WSClient{W: w, O: ClientOpts{Rev: pc.O.Rev, EIO: pc.O.EIO, NoEIO: pc.O.NoEIO, B64: pc.O.B64}, Sid: pc.Sid}
+		if candRev != 0 {
+			wc.O.Rev, wc.O.EIO, wc.O.NoEIO = candRev, fmt.Sprint(candRev), false
+		}
 		wc.Start()
 		Settle()
 		wc.Pump()
